@@ -127,6 +127,27 @@ def main():
                 add("newton-triangle", nodes=nodes, d=d, x=Fr(float(px)), y=Fr(float(py)),
                     s=Fr(float(s0)) + Fr(rnd.uniform(-1e-3, 1e-3)), t=Fr(float(t0)) + Fr(rnd.uniform(-1e-3, 1e-3)))
 
+    if not rep:
+        # one residual coordinate exactly zero, the other not: the step must still be the full Newton step
+        for d in range(1, 5):
+            for _ in range(3):
+                nodes = valid_triangle(rnd, d)
+                k = 0
+                for kk in range(d + 1):
+                    for j in range(d + 1 - kk):
+                        nodes[0][k] = 4.0 * j / d if d in (1, 2, 4) else 3.0 * j / d        # x affine in s, exactly representable
+                        k += 1
+                nodes = [[Fr(float(v)) for v in r] for r in nodes]
+                s0, t0 = Fr(rnd.choice([1, 2, 3]), 8), Fr(float(rnd.uniform(0.1, 0.4)))
+                px = X.tri_eval(nodes[0], d, 1 - s0 - t0, s0, t0)
+                py = X.tri_eval(nodes[1], d, 1 - s0 - t0, s0, t0)
+                if C.is_exact_float(px):
+                    add("newton-triangle", nodes=nodes, d=d, x=px, y=Fr(float(py)) + Fr(1, 8), s=s0, t=t0)
+        for n1 in (1, 2, 3):
+            a = [[Fr(j) for j in range(n1 + 1)], [Fr(rnd.randint(-3, 3)) for _ in range(n1 + 1)]]      # x(s) = n1*s exactly
+            b = [[Fr(1, 2) * n1, Fr(1, 2) * n1], [Fr(-4), Fr(4)]]                                          # vertical line x = n1/2
+            add("newton-intersect", nodes=a, nodes2=b, s=Fr(1, 2), t=Fr(1, 4))                         # F_x = 0 exactly, F_y != 0
+
     # ---- model queries for the curve part
     drv = C.Driver()
     midx = []
